@@ -103,7 +103,7 @@ func (c *Client) signalOnline() {
 
 		// resend unsent request
 		for _, op := range c.operations {
-			if op.resuscitationEnabled.IsSet() && op.request.sent != nil && op.request.sent.SetToIf(true, false) {
+			if op.resuscitationEnabled.IsSet() && op.request != nil && op.request.sent != nil && op.request.sent.SetToIf(true, false) {
 				op.client.send <- op.request
 				log.Infof("client: resuscitated %s %s %s", op.request.OpID, op.request.Type, op.request.Key)
 			}
